@@ -1302,15 +1302,26 @@ where
     }
 
     fn visit_mut_expr(&mut self, expr: &mut Expr) {
-        expr.visit_mut_children_with(self);
+        // `x = <C>{x}</C>`: the assignment target is only relevant while its own
+        // right-hand side is being lowered
+        let assignment_left = match expr {
+            Expr::Assign(AssignExpr {
+                left: AssignTarget::Simple(SimpleAssignTarget::Ident(binding_ident)),
+                ..
+            }) => Some(binding_ident.id.clone()),
+            _ => None,
+        };
+        if assignment_left.is_some() {
+            let outer = mem::replace(&mut self.assignment_left, assignment_left);
+            expr.visit_mut_children_with(self);
+            self.assignment_left = outer;
+        } else {
+            expr.visit_mut_children_with(self);
+        }
 
         match expr {
             Expr::JSXElement(jsx_element) => *expr = self.transform_jsx_element(jsx_element),
             Expr::JSXFragment(jsx_fragment) => *expr = self.transform_jsx_fragment(jsx_fragment),
-            Expr::Assign(AssignExpr {
-                left: AssignTarget::Simple(SimpleAssignTarget::Ident(binding_ident)),
-                ..
-            }) => self.assignment_left = Some(binding_ident.id.clone()),
             _ => {}
         }
     }
